@@ -51,7 +51,7 @@ func (m *marker) Process(ctx context.Context, e *eventlogger.Event) (*eventlogge
 	}
 	return e, nil
 }
-func (m *marker) Reopen() error              { return nil }
+func (m *marker) Reopen() error { return nil }
 func (m *marker) Type() eventlogger.NodeType {
 	if m.slowT > 0 {
 		time.Sleep(m.slowT)
@@ -604,6 +604,121 @@ func GatedStress(seed int64, d time.Duration) CompResult {
 	return res
 }
 
+// slowLines is an io.Writer that takes its time (a slow sink keeps the gated filter inside Broker.Send for a while).
+type slowLines struct {
+	mu    sync.Mutex
+	lines [][]byte
+}
+
+func (w *slowLines) Write(p []byte) (int, error) {
+	time.Sleep(150 * time.Microsecond)
+	w.mu.Lock()
+	w.lines = append(w.lines, append([]byte{}, p...))
+	w.mu.Unlock()
+	return len(p), nil
+}
+
+// GatedBrokerStress: the library's gated filter wired to the Broker of its own pipeline (gated -> JSON formatter ->
+// writer sink over a slow writer), concurrent Sends of Gateable events (some of them flush events), expiry on the real
+// clock and FlushAll calls. The output is corrupted when an event shows up in two composites; after a final FlushAll
+// every event whose Send succeeded is in exactly one composite (Gated.tla: exactly once).
+func GatedBrokerStress(seed int64, d time.Duration) CompResult {
+	res := CompResult{Name: "gated-broker-stress"}
+	b, _ := eventlogger.NewBroker()
+	gf := &gated.Filter{Broker: b, Expiration: 2 * time.Millisecond}
+	out := &slowLines{}
+	b.RegisterNode("gf", gf)
+	b.RegisterNode("jf", &eventlogger.JSONFormatter{})
+	b.RegisterNode("ws", &writer.Sink{Writer: out})
+	if err := b.RegisterPipeline(eventlogger.Pipeline{PipelineID: "p", EventType: "t", NodeIDs: []eventlogger.NodeID{"gf", "jf", "ws"}}); err != nil {
+		res.Problems = append(res.Problems, Problem{"HARNESS", err.Error()})
+		return res
+	}
+	ctx := context.Background()
+	var marker int64
+	var mu sync.Mutex
+	acked := map[int64]bool{}
+	stop := make(chan struct{})
+	var wg sync.WaitGroup
+	for s := 0; s < 6; s++ {
+		wg.Add(1)
+		go func(s int) {
+			defer wg.Done()
+			r := rand.New(rand.NewSource(seed*977 + int64(s)))
+			for {
+				select {
+				case <-stop:
+					return
+				default:
+				}
+				m := atomic.AddInt64(&marker, 1)
+				_, err := b.Send(ctx, "t", &gated.Payload{ID: fmt.Sprintf("g%d", r.Intn(4)), Flush: r.Intn(6) == 0, Detail: map[string]interface{}{"m": m}})
+				mu.Lock()
+				acked[m] = err == nil
+				mu.Unlock()
+				if r.Intn(3) == 0 {
+					time.Sleep(time.Duration(r.Intn(400)) * time.Microsecond)
+				}
+			}
+		}(s)
+	}
+	wg.Add(1)
+	go func() {
+		defer wg.Done()
+		for {
+			select {
+			case <-stop:
+				return
+			default:
+			}
+			gf.FlushAll(ctx)
+			time.Sleep(time.Millisecond)
+		}
+	}()
+	time.Sleep(d)
+	close(stop)
+	wg.Wait()
+	if err := gf.FlushAll(ctx); err != nil {
+		res.Problems = append(res.Problems, Problem{"C19", "final FlushAll of the gated filter failed although no node fails: " + err.Error()})
+	}
+	res.Sends = int(marker)
+	seen := map[int64]int{}
+	for _, l := range out.lines {
+		var doc struct {
+			Payload struct {
+				Details []struct {
+					Payload struct {
+						M int64 `json:"m"`
+					} `json:"payload"`
+				} `json:"details"`
+			} `json:"payload"`
+		}
+		if err := json.Unmarshal(l, &doc); err != nil {
+			res.Problems = append(res.Problems, Problem{"C19", fmt.Sprintf("the writer sink behind the gated filter received something that is not one JSON document: %q", string(l))})
+			return res
+		}
+		for _, dt := range doc.Payload.Details {
+			seen[dt.Payload.M]++
+		}
+	}
+	dup, lost := 0, 0
+	var exDup, exLost int64
+	for m := int64(1); m <= marker; m++ {
+		if seen[m] > 1 {
+			dup++
+			exDup = m
+		}
+		if acked[m] && seen[m] == 0 {
+			lost++
+			exLost = m
+		}
+	}
+	if dup > 0 || lost > 0 {
+		res.Problems = append(res.Problems, Problem{"C19", fmt.Sprintf("gated filter flushing through its own Broker under %d concurrent Sends: %d events are in more than one composite (e.g. event %d), %d events whose Send succeeded are in none after the final FlushAll (e.g. event %d); %d composites written", res.Sends, dup, exDup, lost, exLost, len(out.lines))})
+	}
+	return res
+}
+
 type countSink struct {
 	name string
 	n    atomic.Int64
@@ -1135,6 +1250,106 @@ func AtomicityStress(seed int64, rounds int) []Problem {
 			_ = sendErr
 			if n1, n2, nb := s1.n.Load(), s2.n.Load(), bogus.n.Load(); n1 != 1 || n2 != 1 || nb != 0 {
 				problems = append(problems, Problem{"C04", fmt.Sprintf("a Send overlapped an overwrite of %s that was refused (%v): it delivered %d times to p1, %d times to p2 and %d times to the sink of the refused definition; both pipelines were registered before the Send started and never removed, and the refused definition was never registered", other, regErr, n1, n2, nb)})
+			}
+		}
+	}
+	return problems
+}
+
+// DuringSendStress: the set of pipelines of a type changes while a Send of that type is inside a node. Whatever that
+// Send sees, every Send that starts after the change returned traverses exactly the pipelines registered at that
+// moment, each once (C01; Dispatch.tla's Start reads the registry as it is when the Send starts).
+func DuringSendStress(seed int64, rounds int) []Problem {
+	var problems []Problem
+	ctx := context.Background()
+	for i := 0; i < rounds && len(problems) < 4; i++ {
+		k := 1 + (i*7+int(seed))%24
+		b, _ := eventlogger.NewBroker()
+		g1 := newGateFilter()
+		s1 := &countSink{}
+		b.RegisterNode("g1", g1)
+		b.RegisterNode("fmt", &leaf{eventlogger.NodeTypeFormatter})
+		b.RegisterNode("s1", s1)
+		b.RegisterPipeline(eventlogger.Pipeline{PipelineID: "p1", EventType: "t", NodeIDs: []eventlogger.NodeID{"g1", "fmt", "s1"}})
+		// pipelines that exist before the held Send and are removed during it
+		var gone []*countSink
+		for j := 0; j < k/2; j++ {
+			sk := &countSink{}
+			gone = append(gone, sk)
+			id := eventlogger.NodeID(fmt.Sprintf("old%d", j))
+			b.RegisterNode(id, sk)
+			b.RegisterPipeline(eventlogger.Pipeline{PipelineID: eventlogger.PipelineID(id), EventType: "t", NodeIDs: []eventlogger.NodeID{"fmt", id}})
+		}
+		if i%2 == 1 {
+			// the registry was read before (a warm start): one complete Send
+			close(g1.release)
+			b.Send(ctx, "t", "warm")
+			g1.release = make(chan struct{})
+			for len(g1.entered) > 0 {
+				<-g1.entered
+			}
+			s1.n.Store(0)
+			for _, sk := range gone {
+				sk.n.Store(0)
+			}
+		}
+		sendDone := make(chan struct{})
+		go func() { b.Send(ctx, "t", "held"); close(sendDone) }()
+		select {
+		case <-g1.entered:
+		case <-time.After(5 * time.Second):
+			problems = append(problems, Problem{"C01", "a Send did not enter the first node of the only pipeline that starts with it within 5 s"})
+			close(g1.release)
+			continue
+		}
+		var added []*countSink
+		for j := 0; j < k; j++ {
+			sk := &countSink{}
+			added = append(added, sk)
+			id := eventlogger.NodeID(fmt.Sprintf("new%d", j))
+			b.RegisterNode(id, sk)
+			if err := b.RegisterPipeline(eventlogger.Pipeline{PipelineID: eventlogger.PipelineID(id), EventType: "t", NodeIDs: []eventlogger.NodeID{"fmt", id}}); err != nil {
+				problems = append(problems, Problem{"C05", "RegisterPipeline during a Send failed: " + err.Error()})
+			}
+		}
+		for j := range gone {
+			id := eventlogger.PipelineID(fmt.Sprintf("old%d", j))
+			if j%2 == 0 {
+				b.RemovePipeline("t", id)
+			} else {
+				b.RemovePipelineAndNodes(ctx, "t", id)
+			}
+		}
+		close(g1.release)
+		select {
+		case <-sendDone:
+		case <-time.After(10 * time.Second):
+			problems = append(problems, Problem{"C03", "a Send that overlapped registrations did not return within 10 s"})
+			continue
+		}
+		for round := 0; round < 2; round++ {
+			s1.n.Store(0)
+			for _, sk := range append(append([]*countSink{}, added...), gone...) {
+				sk.n.Store(0)
+			}
+			b.Send(ctx, "t", round)
+			missing, twice, stale := 0, 0, 0
+			for _, sk := range added {
+				switch n := sk.n.Load(); {
+				case n == 0:
+					missing++
+				case n > 1:
+					twice++
+				}
+			}
+			for _, sk := range gone {
+				if sk.n.Load() > 0 {
+					stale++
+				}
+			}
+			if missing+twice+stale > 0 || s1.n.Load() != 1 {
+				problems = append(problems, Problem{"C01", fmt.Sprintf("%d pipelines were registered and %d removed while an earlier Send of the type was inside a node; Send %d after all of that returned: pipeline p1 traversed %d times, %d of the new pipelines not traversed, %d traversed more than once, %d removed pipelines still traversed", k, len(gone), round+1, s1.n.Load(), missing, twice, stale)})
+				break
 			}
 		}
 	}
